@@ -1,2 +1,2 @@
-/- C02 — theorems are being added. -/
-import DsdVerif.Model.World
+/- C02 — complex identity under rotation, minimal canonical form: theorems are in Props/C02Canon.lean. -/
+import DsdVerif.Props.C02Canon
